@@ -23,7 +23,7 @@ def profiles(nmax, dmax, nmin=1):
             yield ds
 
 
-def build(macro, depths, flavour=None, handler=None, lets=(), rich=False, readers=(), hpos=None, wrap=False, init_ev=False, gated=None, failop=None, hexpr_ev=False, err_after=False):
+def build(macro, depths, flavour=None, handler=None, lets=(), rich=False, readers=(), hpos=None, wrap=False, init_ev=False, gated=None, failop=None, hexpr_ev=False, err_after=False, capstep=False):
     """lets: iterable of (branch, is_mut); readers: iterable of (reader_branch, step>=1) where the capture of
     that branch-step snapshots every visible name; rich: every step >= 1 carries a capture, an error-side
     callback and a non-closure operand (C06); failop (Option flavour, sync): how a step fails — None (`=>` and_then) | "filter"
@@ -82,7 +82,8 @@ def build(macro, depths, flavour=None, handler=None, lets=(), rich=False, reader
                     snap = " ev(\"c.%d.%d.s\", &format!(\"{:?}\", (%s,)));" % (k, b, ", ".join(vis))
             # a hoisted capture used inside a wrapper closure is borrowed by that closure; a tokio task must be
             # 'static, so this shape is not well typed in the task-spawning macros (DESIGN §3.14)
-            use_cap = (rich or bool(snap)) and not (wrap and is_async and macro in dsl.SPAWN)
+            # capstep: the whole step is ONE deferred operator whose operand is a block capture (nothing else in the step)
+            use_cap = (rich or bool(snap) or capstep) and not (wrap and is_async and macro in dsl.SPAWN)
             if use_cap:
                 main = B("ev0(\"c.%d.%d.1\");%s move %s" % (k, b, snap, cb))
             else:
